@@ -225,6 +225,13 @@ func encodeValueWithXattrs(e *Engine, st *State, args []Value, depth int, pos st
 
 // hookPostNewEvent records the event a writer posts (ghost), then runs the real body.
 func hookPostNewEvent(e *Engine, st *State, args []Value, depth int, pos string, k func(*State, Value)) {
+	if _, isNil := args[1].(VNil); isNil {
+		// no event to post: whatever the real body does with nil (return early, or dereference it) is what happens
+		if f := e.findMethod("Collection", "postNewEvent"); f != nil {
+			e.callFunction(st, f, args, nil, depth, k)
+			return
+		}
+	}
 	ev, ok := args[1].(VPtr)
 	terms := map[string]Term{}
 	if ok {
